@@ -80,6 +80,19 @@ def build_overlay(prop_id, suite, wdir):
         real = os.path.join(wdir, f"zz_verif_{c}.go")
         open(real, "w").write(tmpl)
         ov[os.path.join(REPO, pkgdir, f"zz_verif_{c}.go")] = real
+    # source patches: a real file of the package under test with one call site replaced (network call, goroutine
+    # launch); regenerated from the current tree on every run, the anchor must occur exactly once
+    for i, pt in enumerate(suite.get("patches", [])):
+        src = os.path.join(REPO, pt["file"])
+        if not os.path.exists(src):
+            raise SystemExit(f"HARNESS-STALE: {pt['file']} does not exist")
+        txt = open(src).read()
+        if txt.count(pt["anchor"]) != 1:
+            print(f"HARNESS-STALE property={prop_id}: patch anchor {pt['anchor']!r} occurs {txt.count(pt['anchor'])} times in {pt['file']}")
+            sys.exit(2)
+        real = os.path.join(wdir, f"patched_{i}_" + os.path.basename(pt["file"]))
+        open(real, "w").write(txt.replace(pt["anchor"], pt["replace"]))
+        ov[src] = real
     # extra overlays into other packages (e.g. exported test hooks are NOT used; this is for harness-side models)
     for virt, real in suite.get("extra_overlay", {}).items():
         ov[os.path.join(REPO, virt)] = os.path.join(VERIF, "harness", real)
